@@ -175,10 +175,54 @@ _filter_init = Contract(
     allow_callee_exceptions=False,     # in particular the KeyError of get_parso_cache_node must not escape
 )
 
-CONTRACTS = [_scope_cache, _def_cache, _cache_node, _filter_init]
+def _region_key(func):
+    """cache_signatures without its last statement (the `yield infer(...)` of the value to be cached)"""
+    body = [s_ for s_ in func.body if not (isinstance(s_, ast.Expr) and isinstance(s_.value, ast.Constant))]
+    last = body[-1]
+    if isinstance(last, ast.Expr) and isinstance(last.value, ast.Yield) and 'infer(' in ast.unparse(last):
+        return body[:-1]
+    return None
+
+
+_KEY = Tup(ANY, Obj('MatchSig'), POS)
+_sig_key = Contract(
+    id='C08.cache_signatures.key', prop='C08',
+    clause='the key of the time-limited signature cache is None (= do not cache) for buffers without path and when '
+           'the text before the cursor does not contain the bracket; otherwise it is (path, the re.Match object of '
+           'this very call, bracket position) - a Match compares by identity, so the key of one call never equals the '
+           'key of another call and a result computed for an earlier version of the buffer is never served',
+    file='jedi/api/helpers.py', qualname='cache_signatures', region=_region_key,
+    params={'inference_state': ANY, 'context': Obj('CtxSig'), 'bracket_leaf': _PN, 'code_lines': Seq(STR),
+            'user_pos': POS},
+    families=['CtxSig', 'RootSig', 'PNode', 'MatchSig'], yields=Opt(_KEY),
+    requires=['user_pos[0] >= 1 and user_pos[0] <= len(code_lines)', 'bracket_leaf.is_leaf',
+              'bracket_leaf.start_pos[0] >= 1'],
+    ensures=[
+        'len(result) == 1',
+        'implies(context.get_root_context().py__file__() is None, result[0] is None)',
+        'implies(result[0] is not None, result[0][2] == bracket_leaf.start_pos '
+        'and result[0][0] == context.get_root_context().py__file__())',
+    ],
+    notes='re.Match has no __eq__: Match objects of different calls are never equal (CPython); a key whose second '
+          'component could be None is a type error of this contract (Optional where a Match is required)',
+)
+
+CONTRACTS = [_scope_cache, _def_cache, _cache_node, _filter_init, _sig_key]
 
 
 def register(reg):
+    from pyvc.values import MNS, MFn, SV
+    import z3 as _z3
+    reg.add_family(Family('CtxSig', methods={'get_root_context': FnSpec('Context.get_root_context', ret=Obj('RootSig'),
+                                                                        pure=True, assumed=True)}))
+    reg.add_family(Family('RootSig', methods={'py__file__': FnSpec('ModuleContext.py__file__', ret=Opt(ANY), pure=True,
+                                                                   assumed=True)}))
+    reg.add_family(Family('MatchSig'))
+    reg.names['re'] = MNS('re', {
+        'match': MFn('spec', 're.match', spec=FnSpec('re.match', params=[('pattern', STR), ('s', STR), ('flags', ANY)],
+                                                     defaults={'flags': None}, ret=Opt(Obj('MatchSig')), pure=False,
+                                                     assumed=True, note='a NEW Match object per call, or None')),
+        'DOTALL': SV(ANY, _z3.Const('re.DOTALL', __import__('pyvc.types', fromlist=['AnySort']).AnySort))})
     reg.names['get_parso_cache_node'] = FnSpec(
         'get_parso_cache_node', params=[('grammar', Obj('Grammar8')), ('path', ANY)], ret=Obj('CacheItem'), pure=True,
         raises=['KeyError'], assumed=False, note='C08.get_parso_cache_node')
@@ -250,14 +294,14 @@ def structural_state(repo):
             if isinstance(n, ast.Call) and isinstance(n.func, ast.Name) and n.func.id == 'get_cached_parent_scope':
                 users.append((rel, n.lineno, len(n.args), [k.arg for k in n.keywords]))
     okc = all(u[2] == 2 and not u[3] for u in users) and len(users) >= 1
-    out.append({'id': 'scope-cache-callers', 'kind': 'call-pre', 'ok': okc,
+    out.append({'id': 'scope-cache-callers', 'definite': True, 'kind': 'call-pre', 'ok': okc,
                 'label': 'every caller of get_cached_parent_scope passes (cache node, node) only: include_flows is False '
                          'whenever the memo is consulted', 'detail': repr(users)})
     # completion cache: keyed by module NAME, never invalidated
     t4 = tree('jedi/api/completion_cache.py')
     s4 = ast.unparse(t4) if t4 else ''
     invalidates = any(w in s4 for w in ('.clear()', 'del _cache', 'mtime', 'getmtime', 'pop('))
-    out.append({'id': 'completion-cache-coherent', 'kind': 'frame', 'ok': bool(invalidates) if t4 else None,
+    out.append({'id': 'completion-cache-coherent', 'definite': True, 'kind': 'frame', 'ok': bool(invalidates) if t4 else None,
                 'contract': 'C08.completion_cache',
                 'label': 'the completion cache for modules named numpy/tensorflow/matplotlib/pandas is invalidated when '
                          'the module text changes',
@@ -279,14 +323,14 @@ def structural_state(repo):
             and {k.arg: ast.unparse(k.value) for k in calls[0].keywords} == \
             {'code': 'code', 'path': 'path', 'file_io': 'file_io', None: 'kwargs'}
         detail = 'kwargs writes at lines %r' % [getattr(n, 'lineno', 0) for n in kw_writes]
-    out.append({'id': 'parse-options-pass-through', 'kind': 'call-pre', 'ok': okp,
+    out.append({'id': 'parse-options-pass-through', 'definite': True, 'kind': 'call-pre', 'ok': okp,
                 'label': 'parse_and_get_code hands the caller\'s parser-cache options (cache, diff_cache, cache_path) '
                          'to parso unchanged: whether a tree is entered into parso\'s cache is decided by the caller '
                          'alone (Script: diff_cache=settings.fast_parser)', 'detail': detail})
     # process-global settings are only switched temporarily
     sw = inv.temporary_global_switches(repo)
     bad = [x for x in sw if not x[4]]
-    out.append({'id': 'settings-switches-restored', 'kind': 'frame', 'ok': not bad,
+    out.append({'id': 'settings-switches-restored', 'definite': True, 'kind': 'frame', 'ok': not bad,
                 'label': 'every function that switches a jedi.settings attribute restores the saved value before every '
                          'exit it writes down (a leaked switch changes the answers of all later Scripts of the process)',
                 'detail': 'sites: %r' % (sw,)})
